@@ -252,7 +252,7 @@ pub fn c09(ctx: &mut Ctx) {
     for da in (0..128u16).step_by(addr_step) {
         for sa in (0..128u16).step_by(addr_step) {
             idx += 1;
-            if !ctx.mine(idx) {
+            if !ctx.mine(idx) || ctx.over_budget() {
                 continue;
             }
             for sapi in 0..4 {
@@ -286,7 +286,7 @@ pub fn c09(ctx: &mut Ctx) {
         let nsap = [0, 1, 1, 2][sapi];
         for len in (0..=max_pdu(nsap)).step_by(len_step) {
             idx += 1;
-            if !ctx.mine(idx) {
+            if !ctx.mine(idx) || ctx.over_budget() {
                 continue;
             }
             for (fi, fc) in fcs.iter().enumerate() {
@@ -369,6 +369,9 @@ pub fn c09(ctx: &mut Ctx) {
     // (f) random telegrams
     let n = ctx.n(400_000, 30_000_000, 300);
     for k in 0..n {
+        if ctx.over_budget() {
+            break;
+        }
         let sapi = rng.usize(4);
         let nsap = [0, 1, 1, 2][sapi];
         let len = match rng.usize(6) {
@@ -741,7 +744,7 @@ pub fn c10(ctx: &mut Ctx) {
     };
     for b0 in 0..=255u8 {
         idx += 1;
-        if !ctx.mine(idx) {
+        if !ctx.mine(idx) || ctx.over_budget() {
             continue;
         }
         check_dec(&mut ctx.rep, &[b0]);
@@ -773,7 +776,7 @@ pub fn c10(ctx: &mut Ctx) {
     let le_step = if tier == Tier::Miri { 29 } else { 1 };
     for le in (0..=255u16).step_by(le_step) {
         idx += 1;
-        if !ctx.mine(idx) {
+        if !ctx.mine(idx) || ctx.over_budget() {
             continue;
         }
         let le = le as u8;
@@ -844,6 +847,9 @@ pub fn c10(ctx: &mut Ctx) {
     // SD1 / SD3 structured
     let n_fixed = ctx.n(20_000, 400_000, 20);
     for _ in 0..n_fixed {
+        if ctx.over_budget() {
+            break;
+        }
         let sd = if rng.bool() { rc::SD1 } else { rc::SD3 };
         let blen = if sd == rc::SD1 { 3 } else { 11 };
         let mut body = rng.bytes(blen);
@@ -869,6 +875,9 @@ pub fn c10(ctx: &mut Ctx) {
     // (3) single-byte substitutions of valid frames
     let n_sub = ctx.n(600, 40_000, 3);
     for k in 0..n_sub {
+        if ctx.over_budget() {
+            break;
+        }
         let frame = random_valid_frame(&mut rng);
         let n = frame.len();
         let all_positions = n <= 32 || k % 8 == 0;
@@ -901,6 +910,9 @@ pub fn c10(ctx: &mut Ctx) {
     // (4) random / mutational strings with all prefixes
     let n_rand = ctx.n(60_000, 3_000_000, 40);
     for k in 0..n_rand {
+        if ctx.over_budget() {
+            break;
+        }
         let buf = match rng.usize(5) {
             0 => {
                 // pure random, biased to start with a start delimiter
